@@ -280,6 +280,7 @@ type State struct {
 	effects []Effect
 	dead    bool
 	retTag  string
+	boxed   map[*Term]Value // payloads of interface values created by MakeInterface
 }
 
 func (s *State) clone() *State {
@@ -301,6 +302,12 @@ func (s *State) clone() *State {
 	}
 	for k, v := range s.globals {
 		n.globals[k] = v
+	}
+	if s.boxed != nil {
+		n.boxed = make(map[*Term]Value, len(s.boxed))
+		for k, v := range s.boxed {
+			n.boxed[k] = v
+		}
 	}
 	n.hyps = append([]*Term(nil), s.hyps...)
 	n.path = append([]string(nil), s.path...)
